@@ -361,6 +361,11 @@ class Ctx:
                 crashed = ("fatal error" in err or "panic:" in err or "goroutine " in err)
                 if not crashed or not os.path.exists(tp):
                     raise Inconclusive("driver failed (rc %d): %s" % (p.returncode, err[-3000:]))
+                # a crash is an observation about the code under test only if that code is on the crashing stack
+                # (or the Go runtime detected a data race / concurrent map access); otherwise the driver is broken
+                first_gor = err.split("\n\ngoroutine ")[0] + "\n\n" + (err.split("\n\ngoroutine ")[1] if "\n\ngoroutine " in err else "")
+                if MODULE not in first_gor and "fatal error" not in err:
+                    raise Inconclusive("driver bug (panic outside the code under test): %s" % err[:1500])
                 traces = split_traces(read_ndjson(tp, tolerant=True))
                 if not traces:
                     raise Inconclusive("driver crashed before the first scenario: " + err[-2000:])
